@@ -43,7 +43,7 @@ def gen_cases(tier, seed):
     n = 60 if tier == "quick" else 6000
     for kind in ("bet", "langmuir", "tplot", "alphas", "da", "betwindow"):
         for i in range(n):
-            yield {"kind": kind, "seed": r.randrange(1 << 30), "window": i % 6}
+            yield {"kind": kind, "seed": r.randrange(1 << 30), "window": i % 7 if kind == "langmuir" else i % 6}
 
 
 def run_case(case, ctx):
@@ -302,14 +302,28 @@ def _run_langmuir(case, ctx):
     ads = r.choice(["nitrogen", "argon", "carbon dioxide"])
     T = {"nitrogen": 77.355, "argon": 87.3, "carbon dioxide": 250.0}[ads]
     sigma = pygaps.Adsorbate.find(ads).get_prop("cross_sectional_area")
-    p, style = _grid(r, 0.005, 0.95)
+    if case["window"] == 6:
+        # no limits given: the documented default window, 5 %-90 % of the pressure range of the data - wherever the recording stops
+        top = r.choice([0.95, 0.6, 0.3, 0.1, 0.04])
+        p, style = _grid(r, top * 0.005, top)
+        lim = None
+        lo_, hi_ = 0.05 * float(p[-1]), 0.9 * float(p[-1])
+        if any(abs(x - b) <= 1e-9 * b for x in p for b in (lo_, hi_)):
+            return  # (a point exactly on a default limit: which side it falls is not what is judged here)
+        inside = numpy.flatnonzero((p > lo_) & (p < hi_))
+        ctx.count("langmuir", "default-window/data-up-to-%g" % top)
+    else:
+        p, style = _grid(r, 0.005, 0.95)
+        lim, inside = _limits(r, p, case["window"])
     n = nm * K * p / (1 + K * p)
-    lim, inside = _limits(r, p, case["window"])
     from pgverif.core import _h
     dg = _h([nm, K, style, len(p)])
     iso = _restore(_iso(p, n, ads, T), r)
     for entry in ("raw", "isotherm"):
-        res = _call(area_langmuir_raw, p, n, sigma, lim) if entry == "raw" else _call(area_langmuir, iso, p_limits=lim)
+        if lim is None:
+            res = _call(area_langmuir_raw, p, n, sigma) if entry == "raw" else _call(area_langmuir, iso)
+        else:
+            res = _call(area_langmuir_raw, p, n, sigma, lim) if entry == "raw" else _call(area_langmuir, iso, p_limits=lim)
         ctx.case(["langmuir", entry, dg, case["window"]])
         ctx.count("langmuir", "%s/window-%d-points" % (entry, len(inside)))
         key = "area_langmuir%s" % ("_raw" if entry == "raw" else "")
